@@ -708,8 +708,10 @@ class Gen:
             n = sm.shape[1]
             e = self.mk_row(sm.expr(), r.below(sm.shape[0]))
         else:
+            # sum(as_rows(C)) over a sparse matrix: F20 (rows without stored elements are dereferenced);
+            # kept in the corpus, to be generated again once fixed -> use the sparse gemv instead
             n = sm.shape[0]
-            e = self.mk_sumrows(sm.expr())
+            e = self.mk_mv(sm.expr(), self.gen_v(sm.shape[1], 0))
         t = None
         for _ in range(20):
             t = self.place_v(n)
